@@ -438,9 +438,37 @@ def sdl(name):
     return ' '.join('module %s { %s }' % (m, b) for m, b in mods.items())
 
 
+# pointers inherited from a parent that lives in another module, reached
+# through the inheriting child in schema expressions
+XMOD = {
+    'XM_backlink': D(
+        'type Household { multi link members := .<home[is Pet]; } '
+        'type Pet extending lib::Located;',
+        lib='abstract type Located { link home -> default::Household; }'),
+    'XM_backlink2': D(
+        'type Household { multi link members := .<home[is Puppy]; '
+        'n := count(.<home[is lib::Located]); } '
+        'type Pet extending lib::Located; type Puppy extending Pet;',
+        lib='abstract type Located { link home -> default::Household '
+            '{ since: int64; } }'),
+    'XM_paths': D(
+        'type Pet extending lib::Named { property shout := .name ++ "!"; '
+        'index on (.name); constraint exclusive on (.name); } '
+        'alias Pets := (select Pet { n := .name } filter exists .name); '
+        'global first_pet := (select Pet order by .name limit 1).name; '
+        'function pet_name(p: Pet) -> optional str using (p.name);',
+        lib='abstract type Named { name: str; }'),
+    'XM_overload': D(
+        'type Pet extending lib::Named { overloaded required name: str; } '
+        'type Owner { multi pets: Pet; property names := '
+        'array_agg(.pets.name); multi link named := .pets[is lib::Named]; }',
+        lib='abstract type Named { name: str; }'),
+}
+FAMILY.update(XMOD)
+
 # groups that take part in the pairwise / chain explorations only through
 # their own focus-group pairs (C03 still describes every FAMILY member)
-NOT_PAIRED = set(INHCON) | set(CONREF)
+NOT_PAIRED = set(INHCON) | set(CONREF) | set(XMOD)
 
 
 def names(quick):
